@@ -23,9 +23,12 @@ type AbsModel struct {
 	ObjMode    string     `json:"obj_mode"` // "single" | "all"
 	Branches   []string   `json:"branches"`
 	OpKinds    []string   `json:"op_kinds"`
-	Preds      [][]int    `json:"preds"`           // predicate i is true of v iff KeyOf[v] in Preds[i]
-	Dir        string     `json:"dir"`             // pool order: "asc" | "desc"
-	Shape      [][]string `json:"shape,omitempty"` // op kinds allowed at each position (nil = unconstrained)
+	Preds      [][]int    `json:"preds"`               // predicate i is true of v iff KeyOf[v] in Preds[i]
+	Dir        string     `json:"dir"`                 // pool order: "asc" | "desc"
+	Shape      [][]string `json:"shape,omitempty"`     // op kinds allowed at each position (nil = unconstrained)
+	Stride     int        `json:"stride,omitempty"`    // pool seek stride in bytes (0 = default)
+	EmptyVal   int        `json:"empty_val,omitempty"` // value id rendered as the empty record {} (0 = none); its key must be NullKey+1
+	BigFrom    int        `json:"big_from,omitempty"`  // keys >= BigFrom (and < NullKey) are rendered multiplied by 100000 (mixed encoded sizes)
 	Invariants []string   `json:"invariants"`
 	Properties []string   `json:"properties"`
 }
@@ -82,6 +85,7 @@ func (m *AbsModel) Cfg(export bool) string {
 	var b strings.Builder
 	fmt.Fprintf(&b, "\\* generated from lakeh.AbsModel %q\nSPECIFICATION Spec\nCONSTANTS\n", m.Name)
 	fmt.Fprintf(&b, "  MaxOps = %d\n  KeyOf <- MCKeyOf\n  NullKey = %d\n  Batches <- MCBatches\n  ObjMode = %q\n", m.MaxOps, m.NullKey, m.ObjMode)
+	fmt.Fprintf(&b, "  CompactSplit = %s\n", strings.ToUpper(strconv.FormatBool(m.ObjMode == "single" && m.Stride > 0 && m.Stride < 16)))
 	fmt.Fprintf(&b, "  BranchNames = %s\n  OpKinds = %s\n  PredKeys <- MCPreds\n  Shape <- MCShape\n  Export = %s\n", tlaStrSet(m.Branches), tlaStrSet(m.OpKinds), strings.ToUpper(strconv.FormatBool(export)))
 	inv := append([]string{}, m.Invariants...)
 	if export {
@@ -244,7 +248,12 @@ func histKey(h History) string {
 // explicit null, NullKey+1 a missing key field.
 func (m *AbsModel) ValueText(v int) string {
 	k := m.KeyOf[v-1]
+	if m.BigFrom > 0 && k >= m.BigFrom && k < m.NullKey {
+		return fmt.Sprintf("{k:%d,u:%d}", k*100000, v)
+	}
 	switch {
+	case v == m.EmptyVal && v != 0:
+		return "{}"
 	case k == m.NullKey:
 		return fmt.Sprintf("{k:null,u:%d}", v)
 	case k > m.NullKey:
@@ -269,9 +278,12 @@ func (m *AbsModel) BatchText(i int) string {
 func (m *AbsModel) PredText(i int) string {
 	var terms []string
 	for _, k := range m.Preds[i-1] {
-		if k == m.NullKey {
+		switch {
+		case k == m.NullKey:
 			terms = append(terms, "k==null")
-		} else {
+		case m.BigFrom > 0 && k >= m.BigFrom && k < m.NullKey:
+			terms = append(terms, fmt.Sprintf("k==%d", k*100000))
+		default:
 			terms = append(terms, fmt.Sprintf("k==%d", k))
 		}
 	}
